@@ -1037,6 +1037,12 @@ impl SubrIndex {
         SubrIndex { count: subrs.len(), items: subrs.into_iter().enumerate().collect() }
     }
     pub fn get(&self, i: usize) -> &[u8] {
+        // dense indexes keep entry i at position i
+        if let Some(x) = self.items.get(i) {
+            if x.0 == i {
+                return &x.1;
+            }
+        }
         self.items.iter().find(|x| x.0 == i).map(|x| &x.1[..]).unwrap_or(&[])
     }
     pub fn set(&mut self, i: usize, b: Vec<u8>) {
@@ -2178,5 +2184,272 @@ impl<'a> Env<'a> {
             }
         }
         Ok(())
+    }
+}
+
+// ------------------------------------------------------------------------------------------------
+// independent readers (CFF 1 table, DICT, INDEX, charset, FDSelect) — for reading *outputs* of the code under test
+// ------------------------------------------------------------------------------------------------
+
+/// An INDEX inside a table, read lazily.
+#[derive(Clone, Copy, Debug)]
+pub struct IndexRef<'a> {
+    d: &'a [u8],
+    pub count: usize,
+    off_size: usize,
+    offs: usize,
+    /// position of the byte preceding the object data (offsets are relative to it)
+    base: usize,
+    /// position just after the INDEX
+    pub end: usize,
+}
+
+impl<'a> IndexRef<'a> {
+    /// `count32`: CFF2 (uint32 count) instead of CFF 1 (uint16 count)
+    pub fn read(d: &'a [u8], pos: usize, count32: bool) -> Result<IndexRef<'a>, String> {
+        let mut r = crate::be::R::at(d, pos);
+        let count = if count32 { r.u32().ok_or("INDEX: truncated count")? as usize } else { r.u16().ok_or("INDEX: truncated count")? as usize };
+        if count == 0 {
+            return Ok(IndexRef { d, count, off_size: 1, offs: r.p, base: r.p, end: r.p });
+        }
+        let off_size = r.u8().ok_or("INDEX: truncated offSize")? as usize;
+        if !(1..=4).contains(&off_size) {
+            return Err(format!("INDEX: offSize {}", off_size));
+        }
+        let offs = r.p;
+        let base = offs + (count + 1) * off_size - 1;
+        let ix = IndexRef { d, count, off_size, offs, base, end: 0 };
+        let last = ix.offset(count).ok_or("INDEX: truncated offset array")?;
+        if last < 1 || base + last > d.len() {
+            return Err("INDEX: data beyond the table".into());
+        }
+        Ok(IndexRef { end: base + last, ..ix })
+    }
+    fn offset(&self, i: usize) -> Option<usize> {
+        let s = self.d.get(self.offs + i * self.off_size..self.offs + (i + 1) * self.off_size)?;
+        Some(s.iter().fold(0usize, |a, b| (a << 8) | *b as usize))
+    }
+    pub fn get(&self, i: usize) -> Option<&'a [u8]> {
+        if i >= self.count {
+            return None;
+        }
+        let (a, b) = (self.offset(i)?, self.offset(i + 1)?);
+        if a < 1 || b < a {
+            return None;
+        }
+        self.d.get(self.base + a..self.base + b)
+    }
+    pub fn to_vec(&self) -> Result<Vec<Vec<u8>>, String> {
+        (0..self.count).map(|i| self.get(i).map(|s| s.to_vec()).ok_or_else(|| format!("INDEX: object {} unreadable", i))).collect()
+    }
+}
+
+/// DICT data -> (operator, operands); escaped operators are 0x0c00 | second byte (TN 5176 section 4)
+pub fn read_dict(d: &[u8]) -> Result<Vec<(u16, Vec<f64>)>, String> {
+    let mut out = Vec::new();
+    let mut ops: Vec<f64> = Vec::new();
+    let mut i = 0;
+    while i < d.len() {
+        let b = d[i];
+        i += 1;
+        match b {
+            0..=11 | 13..=24 => out.push((b as u16, std::mem::take(&mut ops))),
+            12 => {
+                let b1 = *d.get(i).ok_or("DICT: truncated escape")?;
+                i += 1;
+                out.push((0x0c00 | b1 as u16, std::mem::take(&mut ops)));
+            }
+            28 => {
+                let s = d.get(i..i + 2).ok_or("DICT: truncated int16")?;
+                i += 2;
+                ops.push(i16::from_be_bytes([s[0], s[1]]) as f64);
+            }
+            29 => {
+                let s = d.get(i..i + 4).ok_or("DICT: truncated int32")?;
+                i += 4;
+                ops.push(i32::from_be_bytes([s[0], s[1], s[2], s[3]]) as f64);
+            }
+            30 => {
+                let mut text = String::new();
+                'outer: loop {
+                    let byte = *d.get(i).ok_or("DICT: truncated real")?;
+                    i += 1;
+                    for nib in [byte >> 4, byte & 15] {
+                        match nib {
+                            0..=9 => text.push((b'0' + nib) as char),
+                            10 => text.push('.'),
+                            11 => text.push('E'),
+                            12 => text.push_str("E-"),
+                            14 => text.push('-'),
+                            15 => break 'outer,
+                            _ => return Err("DICT: reserved nibble".into()),
+                        }
+                    }
+                }
+                ops.push(text.parse::<f64>().map_err(|_| format!("DICT: bad real {:?}", text))?);
+            }
+            32..=246 => ops.push(b as f64 - 139.0),
+            247..=250 => {
+                let b1 = *d.get(i).ok_or("DICT: truncated")? as f64;
+                i += 1;
+                ops.push((b as f64 - 247.0) * 256.0 + b1 + 108.0);
+            }
+            251..=254 => {
+                let b1 = *d.get(i).ok_or("DICT: truncated")? as f64;
+                i += 1;
+                ops.push(-(b as f64 - 251.0) * 256.0 - b1 - 108.0);
+            }
+            _ => return Err(format!("DICT: reserved byte {}", b)),
+        }
+    }
+    if !ops.is_empty() {
+        return Err("DICT: operands without operator".into());
+    }
+    Ok(out)
+}
+
+fn dict_get(dict: &[(u16, Vec<f64>)], o: u16) -> Option<&Vec<f64>> {
+    dict.iter().find(|e| e.0 == o).map(|e| &e.1)
+}
+
+/// A CFF 1 table (first font), read lazily.
+pub struct Cff1Ref<'a> {
+    d: &'a [u8],
+    pub charstrings: IndexRef<'a>,
+    pub gsubrs: IndexRef<'a>,
+    pub cid: bool,
+    /// per font DICT: local Subrs INDEX (name-keyed fonts have exactly one entry)
+    pub lsubrs: Vec<Option<IndexRef<'a>>>,
+    /// charset operand: 0, 1, 2 = predefined; otherwise an offset
+    charset_off: usize,
+    fdselect_off: Option<usize>,
+}
+
+impl<'a> Cff1Ref<'a> {
+    pub fn read(d: &'a [u8]) -> Result<Cff1Ref<'a>, String> {
+        let mut r = crate::be::R::new(d);
+        let major = r.u8().ok_or("CFF header")?;
+        let _minor = r.u8().ok_or("CFF header")?;
+        let hdr = r.u8().ok_or("CFF header")? as usize;
+        if major != 1 {
+            return Err(format!("CFF major version {}", major));
+        }
+        let names = IndexRef::read(d, hdr, false)?;
+        let tops = IndexRef::read(d, names.end, false)?;
+        let strings = IndexRef::read(d, tops.end, false)?;
+        let gsubrs = IndexRef::read(d, strings.end, false)?;
+        let top = read_dict(tops.get(0).ok_or("no Top DICT")?)?;
+        let one = |o: u16| dict_get(&top, o).and_then(|v| v.first().copied()).map(|v| v as usize);
+        let charstrings = IndexRef::read(d, one(dop::CHARSTRINGS).ok_or("Top DICT without CharStrings")?, false)?;
+        let cid = top.first().map(|e| e.0) == Some(dop::ROS);
+        let private_of = |dict: &[(u16, Vec<f64>)]| -> Result<Option<IndexRef<'a>>, String> {
+            let p = dict_get(dict, dop::PRIVATE).ok_or("DICT without Private")?;
+            if p.len() != 2 {
+                return Err("Private needs two operands".into());
+            }
+            let (size, off) = (p[0] as usize, p[1] as usize);
+            let pd = read_dict(d.get(off..off + size).ok_or("Private DICT beyond the table")?)?;
+            match dict_get(&pd, dop::SUBRS).and_then(|v| v.first().copied()) {
+                Some(rel) => Ok(Some(IndexRef::read(d, off + rel as usize, false)?)),
+                None => Ok(None),
+            }
+        };
+        let mut lsubrs = Vec::new();
+        let mut fdselect_off = None;
+        if cid {
+            let fda = IndexRef::read(d, one(dop::FD_ARRAY).ok_or("CID font without FDArray")?, false)?;
+            for i in 0..fda.count {
+                lsubrs.push(private_of(&read_dict(fda.get(i).ok_or("Font DICT unreadable")?)?)?);
+            }
+            fdselect_off = Some(one(dop::FD_SELECT).ok_or("CID font without FDSelect")?);
+        } else {
+            lsubrs.push(private_of(&top)?);
+        }
+        Ok(Cff1Ref { d, charstrings, gsubrs, cid, lsubrs, charset_off: one(dop::CHARSET).unwrap_or(0), fdselect_off })
+    }
+
+    /// font DICT index of a glyph (0 for name-keyed fonts)
+    pub fn fd_of(&self, gid: u16) -> Result<usize, String> {
+        let pos = match self.fdselect_off {
+            None => return Ok(0),
+            Some(p) => p,
+        };
+        let mut r = crate::be::R::at(self.d, pos);
+        let fd = match r.u8().ok_or("FDSelect")? {
+            0 => *self.d.get(pos + 1 + gid as usize).ok_or("FDSelect format 0 truncated")?,
+            3 => {
+                let nr = r.u16().ok_or("FDSelect")? as usize;
+                let mut found = None;
+                let mut prev: Option<(u16, u8)> = None;
+                for _ in 0..nr {
+                    let first = r.u16().ok_or("FDSelect")?;
+                    let fd = r.u8().ok_or("FDSelect")?;
+                    if let Some((pf, pfd)) = prev {
+                        if gid >= pf && gid < first {
+                            found = Some(pfd);
+                        }
+                    }
+                    prev = Some((first, fd));
+                }
+                let sentinel = r.u16().ok_or("FDSelect")?;
+                if let Some((pf, pfd)) = prev {
+                    if gid >= pf && gid < sentinel {
+                        found = Some(pfd);
+                    }
+                }
+                found.ok_or("glyph not covered by FDSelect")?
+            }
+            f => return Err(format!("FDSelect format {}", f)),
+        };
+        if fd as usize >= self.lsubrs.len() {
+            return Err("FDSelect names a missing Font DICT".into());
+        }
+        Ok(fd as usize)
+    }
+
+    /// glyph id of the glyph whose charset SID is `sid` (name-keyed fonts; None if absent or charset is Expert / ExpertSubset)
+    pub fn gid_for_sid(&self, sid: u16) -> Option<u16> {
+        let n = self.charstrings.count;
+        if sid == 0 {
+            return Some(0);
+        }
+        match self.charset_off {
+            0 => {
+                if (sid as usize) < n && sid <= 228 {
+                    Some(sid)
+                } else {
+                    None
+                }
+            }
+            1 | 2 => None,
+            off => {
+                let mut r = crate::be::R::at(self.d, off);
+                let fmt = r.u8()?;
+                let mut g = 1usize;
+                match fmt {
+                    0 => {
+                        while g < n {
+                            if r.u16()? == sid {
+                                return Some(g as u16);
+                            }
+                            g += 1;
+                        }
+                        None
+                    }
+                    1 | 2 => {
+                        while g < n {
+                            let first = r.u16()? as usize;
+                            let left = if fmt == 1 { r.u8()? as usize } else { r.u16()? as usize };
+                            if (sid as usize) >= first && (sid as usize) <= first + left && g + (sid as usize - first) < n {
+                                return Some((g + sid as usize - first) as u16);
+                            }
+                            g += left + 1;
+                        }
+                        None
+                    }
+                    _ => None,
+                }
+            }
+        }
     }
 }
